@@ -8,7 +8,6 @@ Reference (written here, independent of domain.conn / dofconn): Cartesian number
 node(i,j,k) = (k*(nely+1)+j)*(nelx+1)+i, element(i,j,k) = (k*nely+j)*nelx+i, local node order x fastest,
 dof = node*ndof + d, plain loops.
 """
-import itertools
 import numpy as np
 
 from symx import R, SB
@@ -42,8 +41,7 @@ BOUNDS = {
 OUTSIDE = ["meshes larger than the grid, 1D domains, user-overridden node_numbering",
            "positive semi-definiteness for element sizes / Poisson ratios outside the rational grid (symbolic sizes and "
            "material time out, DESIGN.md section 4)",
-           "bc lists with repeated dofs (the diagonal value is then added twice), bcdiagval=None default "
-           "(np.max(element_matrix)) is only exercised for AssembleMass' default 0.0",
+           "bc lists with repeated dofs (the diagonal value is then added twice)",
            "complex element matrices (covered by the adjoint check C01)", "IEEE rounding", "sparse storage details "
            "(explicit zeros, index dtype): SymSparse is a dense stand-in"]
 ASSUMPTIONS = ["float64 arithmetic modelled as exact real arithmetic; np.sqrt(3) is an algebraic constant s>0, s*s=3",
@@ -55,9 +53,15 @@ ASSUMPTIONS = ["float64 arithmetic modelled as exact real arithmetic; np.sqrt(3)
                "rational grid of element sizes / Poisson ratios, with E = 1 and unit thickness (K_e is linear in E > 0 and "
                "in the thickness > 0, proved by the obligations of kind 'elmat-linear-in-E')",
                "clause 1 for Stiffness/Mass/Poisson reads K_e from the module (m.elmat); K_e itself is pinned by symmetry, "
-               "rigid-body null space, PSD, total mass, Poisson energy and (added here, implied by C12's energy clause) the "
-               "strain energy of an affine displacement field with the textbook isotropic law"]
+               "rigid-body null space, PSD, total mass, Poisson energy and by two clauses added here: the strain energy of "
+               "an affine displacement field with the textbook isotropic law (kind stiffness-affine-energy, implied by C12's "
+               "energy clause) and, on the one-element meshes, entry-wise equality of K_e / M_e / P_e with the EXACT integral "
+               "of the definition over the bilinear shape functions written in harness/refs_fe.py (kind "
+               "elmat-exact-integral; 2-point Gauss is exact for these integrands, so a wrong Gauss point is a violation)",
+               "replay witnesses are preferred (not required) to have sizes, E, rho, kappa, x >= 1/4 so that the float "
+               "replay is well scaled"]
 ITEM_TIMEOUT = {"quick": 110, "thorough": 900}
+
 
 # ------------------------------------------------------------------------------------------------
 def _matrix_type(V, cfg):
@@ -76,6 +80,17 @@ def _mk_sparse(V, densearr):
         return SymSparse(densearr)
     import scipy.sparse as sps
     return sps.csc_matrix(densearr)
+
+
+def _maxentry(Ke, symbolic):
+    flat = list(np.asarray(Ke).reshape(-1))
+    if not symbolic:
+        return max(float(v) for v in flat)
+    from symx.npshim import _max2
+    r = flat[0]
+    for v in flat[1:]:
+        r = _max2(r, v)
+    return r
 
 
 def sc_assembly(V, P, cfg, chk=None):
@@ -97,7 +112,9 @@ def sc_assembly(V, P, cfg, chk=None):
     if bc is not None:
         kw["bc"] = np.array(bc, dtype=int)
     bcdiag = None
-    if cfg.get("bcdiagval", bc is not None and which != "mass"):
+    if cfg.get("bcdefault"):
+        pass                  # documented default of AssembleGeneral/Stiffness/Poisson: max entry of the element matrix
+    elif cfg.get("bcdiagval", bc is not None and which != "mass"):
         bcdiag = V.real("bcdiag", default=3.0)
         kw["bcdiagval"] = bcdiag
     elif which == "mass":
@@ -151,6 +168,8 @@ def sc_assembly(V, P, cfg, chk=None):
         Ke = np.asarray(m.elmat)      # element matrix computed by the module; pinned by the physics clauses
         chk.true("elmat-shape", tuple(Ke.shape) == (ndof * len(M.local),) * 2, "scatter")
     chk.true("shape", tuple(K.shape) == (n, n), "scatter")
+    if cfg.get("bcdefault"):
+        bcdiag = _maxentry(Ke, V.symbolic)
     Kref = ref_scatter(M, ndof, x, Ke, bc, bcdiag, const, V.symbolic)
     chk.arrays_eq("scatter", K, Kref, "scatter")
 
@@ -346,6 +365,11 @@ def items(tier):
         add("poisson-%s" % tag, which="poisson", mesh=mesh)
         add("poisson-%s-bc1-csr" % tag, which="poisson", mesh=mesh, bc=bcs["one"], csr=True)
         add("poisson-%s-bcN" % tag, which="poisson", mesh=mesh, bc=bcs["several"])
+    # --- default diagonal value (bcdiagval=None -> largest entry of the element matrix)
+    add("general-1x1x0-ndof1-bcdefault", which="general", mesh=(1, 1, 0), ndof=1, bc=[1], bcdefault=True)
+    add("general-2x1x0-ndof2-bcdefault", which="general", mesh=(2, 1, 0), ndof=2, bc=[0, 5], bcdefault=True, csr=True)
+    add("poisson-2x1x0-bcdefault", which="poisson", mesh=(2, 1, 0), bc=[0, 5], bcdefault=True)
+    add("stiffness-1x1x0-strain-bcdefault", which="stiffness", mesh=(1, 1, 0), plane="strain", bc=[0, 3], bcdefault=True)
     # --- linearity of K_e in E and thickness
     for dim, pl in ((2, "strain"), (2, "stress"), (3, "strain")):
         out.append(dict(kind="linear-E", id="elmat-linear-%dd-%s" % (dim, pl), dim=dim, plane=pl))
